@@ -17,7 +17,20 @@ def _const(v: Any) -> tuple[str, str]:
     return (type(v).__name__, repr(v))
 
 
-def diff(a: Any, b: Any, positions: bool = True, path: str = "") -> tuple[str, str, str] | None:
+def diff_src(a: Any, b: Any, src: str) -> tuple[str, str, str] | None:
+    """Like diff(), but knows the source: a column that differs from CPython's *only* because CPython counts
+    UTF-8 bytes and the implementation counts characters is reported separately, as path 'UTF8COL', and only if
+    nothing else differs (so everything else stays fully compared on non-ASCII sources)."""
+    if src.isascii():
+        return diff(a, b)
+    soft: list[tuple[str, str, str]] = []
+    d = diff(a, b, True, "", (src.split("\n"), soft))
+    if d is None and soft:
+        return ("UTF8COL", soft[0][1], soft[0][2])
+    return d
+
+
+def diff(a: Any, b: Any, positions: bool = True, path: str = "", u8: Any = None) -> tuple[str, str, str] | None:
     """a = implementation tree, b = reference tree."""
     if isinstance(b, ast.AST):
         if type(a) is not type(b):
@@ -29,7 +42,7 @@ def diff(a: Any, b: Any, positions: bool = True, path: str = "") -> tuple[str, s
                 if va is _MISSING and vb is _MISSING:
                     continue
                 return (f"{path}.{f}:missing", "absent" if va is _MISSING else "present", "absent" if vb is _MISSING else "present")
-            d = diff(va, vb, positions, f"{path}.{f}" if path else f)
+            d = diff(va, vb, positions, f"{path}.{f}" if path else f, u8)
             if d:
                 return d
         if positions and b._attributes:
@@ -38,6 +51,13 @@ def diff(a: Any, b: Any, positions: bool = True, path: str = "") -> tuple[str, s
                     va = getattr(a, attr, _MISSING)
                     vb = getattr(b, attr, _MISSING)
                     if va != vb or type(va) is not type(vb):
+                        if u8 is not None and attr.endswith("col_offset") and isinstance(va, int) and isinstance(vb, int):
+                            ln = b.lineno if attr == "col_offset" else b.end_lineno
+                            if 1 <= ln <= len(u8[0]):
+                                chars = len(u8[0][ln - 1].encode("utf-8")[:vb].decode("utf-8", "ignore"))
+                                if chars == va:
+                                    u8[1].append((f"{path}:{type(b).__name__}@{attr}", repr(va), repr(vb)))
+                                    continue
                         return (f"{path}:{type(b).__name__}@{attr}", repr(va) if va is not _MISSING else "absent", repr(vb) if vb is not _MISSING else "absent")
         return None
     if isinstance(b, list):
@@ -46,7 +66,7 @@ def diff(a: Any, b: Any, positions: bool = True, path: str = "") -> tuple[str, s
         if len(a) != len(b):
             return (path + ":len", str(len(a)), str(len(b)))
         for i, (x, y) in enumerate(zip(a, b)):
-            d = diff(x, y, positions, f"{path}[{i}]")
+            d = diff(x, y, positions, f"{path}[{i}]", u8)
             if d:
                 return d
         return None
